@@ -224,9 +224,11 @@ class Consumer:
     def __call__(self, x):
         inv = self.n
         self.n += 1
+        # "cc": the user function was *called* (reached); "cs": it started handling the element
+        self.log.add("cc", self.cid, inv, x, self.log.now(), getattr(self.log, "ctx", None))
         if self.mode == "coro":
             return self._coro(inv, x)
-        self.log.add("cs", self.cid, inv, x, self.log.now())
+        self.log.add("cs", self.cid, inv, x, self.log.now(), getattr(self.log, "ctx", None))
         if inv in self.fail_at:
             self.log.add("cx", self.cid, inv)
             raise Boom(("c", self.cid, inv))
@@ -238,7 +240,7 @@ class Consumer:
         return fut
 
     async def _coro(self, inv, x):
-        self.log.add("cs", self.cid, inv, x, self.log.now())
+        self.log.add("cs", self.cid, inv, x, self.log.now(), getattr(self.log, "ctx", None))
         if inv in self.fail_at:
             self.log.add("cx", self.cid, inv)
             raise Boom(("c", self.cid, inv))
